@@ -150,7 +150,7 @@ class Loss(Component):
         unitary[self.mode, self.mode] = transmission**0.5
         unitary[n_modes - 1, n_modes - 1] = transmission**0.5
         unitary[self.mode, n_modes - 1] = (1 - transmission) ** 0.5
-        unitary[n_modes - 1, self.mode] = (1 - transmission) ** 0.5
+        unitary[n_modes - 1, self.mode] = -((1 - transmission) ** 0.5)
         return unitary
 
 
